@@ -9,7 +9,7 @@ Variant == "intended"
 VARIABLES cfg, rd, nxt, chIn, closedIn, w1, w2, chMid, closedMid, chOut, closedOut, wr, written, main, faulted, deliv
 M == INSTANCE MCPipeline
 Cmd(name) == CASE name = "toMultiAlign" -> "toma" [] name = "toPairAlign" -> "topa" [] name = "samVariants" -> "samvar"
-               [] name = "variants" -> "variants" [] name = "snps" -> "snps" [] name = "updownList" -> "udlist"
+               [] name = "variants" -> "variants" [] name = "variantsRef" -> "variantsref" [] name = "snps" -> "snps" [] name = "updownList" -> "udlist"
 RealT(c) == IF c.name \in {"snps", "updownList"} THEN c.N ELSE c.T       \* those two size their pool with NumCPU >= N
 Init == /\ \E nm \in M!Names, t \in {2, MaxT} :
              LET c0 == M!Topo(nm, MaxN, t)
@@ -20,5 +20,5 @@ Next == /\ M!Next
         /\ deliv' = IF wr.st = "got" /\ wr'.st = "flush" THEN Append(deliv, wr.last) ELSE deliv
 EmitInv == main = "retNil" =>
    EmitVec([id |-> "gate-" \o Cmd(cfg.name) \o "-" \o ToString(cfg.T) \o "-" \o ToString(deliv), cmd |-> Cmd(cfg.name),
-            N |-> cfg.N, T |-> cfg.T, mode |-> "gate", order |-> deliv])
+            N |-> cfg.N - Cardinality(cfg.Skip), T |-> cfg.T, mode |-> "gate", order |-> deliv])       \* N counts the query records
 =============================================================================
